@@ -527,6 +527,46 @@ def rule_series(ctx):
                f'ends the sequence with the parameter)', loops[0], f.module)
 
 
+def rule_embed_item(ctx):
+    ctx.rule('C13.fresh', 'what a generator embeds on each turn of a loop is the item itself (a pattern gives a fresh stream each time it is '
+                          'embedded), not a stream made once before the loop: the second time round such a stream is exhausted and '
+                          'contributes nothing')
+    n = 0
+    for fi in sorted(ctx.repo.functions.values(), key=lambda f: f.fq):
+        if not fi.module.name.startswith('sc3.seq.patterns'):
+            continue
+        loops = [l for l in walk_local(fi.node) if isinstance(l, (ast.For, ast.While))]
+        if not loops:
+            continue
+        meths = fi.cls.methods if fi.cls else {}
+
+        def makes_streams(v):
+            for c in U.calls(v):
+                if norm(c.func) in ('stm.stream', 'stream'):
+                    return True
+                if U.is_self_attr(c.func) and c.func.attr in meths:
+                    for r in walk_local(meths[c.func.attr].node):
+                        if isinstance(r, ast.Return) and r.value is not None and any(norm(c2.func) in ('stm.stream', 'stream') for c2 in U.calls(r.value)):
+                            return True
+            return False
+        for l in loops:
+            inside = {id(x) for x in ast.walk(l)}
+            for c in U.calls(l):
+                if norm(c.func) not in ('stm.embed', 'embed') or not c.args:
+                    continue
+                n += 1
+                bad = []
+                for nm in set(U.names_in(c.args[0])):
+                    for a in walk_local(fi.node):
+                        if isinstance(a, ast.Assign) and id(a) not in inside and any(isinstance(t, ast.Name) and t.id == nm for t in a.targets) \
+                                and makes_streams(a.value):
+                            bad.append(f'{nm} = {norm(a.value)[:50]}')
+                ctx.ob('C13.fresh', f'{fi.fq}:{norm(c)[:50]}:embeds-the-item', not bad,
+                       f'{norm(c)[:60]} embeds, on every turn, from {bad}: streams made once before the loop; an item selected a second time '
+                       f'is already exhausted', c, fi.module)
+    ctx.require(n >= 10, 'C13.fresh', f'only {n} embeds inside loops found')
+
+
 def rule_stays_ended(ctx):
     ctx.rule('C13.once', 'a pattern stream that has ended stays ended: the attribute whose None means "not started yet" is written in next() '
                          'only inside the start branch (reset() and __init__ are the other writers), so polling past the end raises again '
@@ -561,6 +601,7 @@ def run(ctx):
     c15.rule_order(ctx, rid='C13.ops', families=[f for f in c15.FAMILIES if f[0].startswith('sc3.seq.pattern')], least=5)
     rule_once(ctx)
     rule_stays_ended(ctx)
+    rule_embed_item(ctx)
     rule_series(ctx)
     rule_wf(ctx)
     rule_pure(ctx)
@@ -572,6 +613,11 @@ def run(ctx):
 
 
 MUTANTS = [
+    dict(rule='C13.fresh', name='Pswitch embeds streams of its items made once per embedding (seed C13-k)', file='sc3/seq/patterns/listpatterns.py',
+         old="                inval = yield from stm.embed(lst[indx % size], inval)\n",
+         new="                inval = yield from stm.embed(stream_lst[indx % size], inval)\n",
+         edits=[('sc3/seq/patterns/listpatterns.py', "        lst = self.lst\n        size = len(lst)\n        indx_stream = stm.stream(self.which)\n        indx = None\n        try:\n            while True:\n                indx = indx_stream.next(inval)  # raises StopStream\n                inval = yield from stm.embed(lst[indx % size], inval)\n",
+                 "        stream_lst = [stm.stream(i) for i in self.lst]\n        size = len(stream_lst)\n        indx_stream = stm.stream(self.which)\n        indx = None\n        try:\n            while True:\n                indx = indx_stream.next(inval)  # raises StopStream\n                inval = yield from stm.embed(stream_lst[indx % size], inval)\n")]),
     dict(rule='C13.once', name='Pseries emits the value before it polls the step (seed C13-j)', file='sc3/seq/patterns/valuepatterns.py',
          old="                stepval = step_stream.next(inval)\n                outval = cur\n                cur += stepval\n                inval = yield outval\n",
          new="                inval = yield cur\n                cur += step_stream.next(inval)\n"),
